@@ -7,6 +7,7 @@ import (
 	"go/constant"
 	"go/token"
 	"go/types"
+	"os"
 	"sort"
 	"strings"
 
@@ -23,8 +24,9 @@ type Engine struct {
 	InlinePkg *ssa.Package // additional package whose functions are inlined (ztest for C20)
 	// NoExpand: functions whose boolean / nil-able results stay opaque predicates in reaching conditions (the role
 	// functions: send, isClosed, close - their answer depends on the run, and the rules speak about them by name).
-	NoExpand map[*ssa.Function]bool
-	simple   map[*ssa.Function]bool
+	NoExpand    map[*ssa.Function]bool
+	simple      map[*ssa.Function]bool
+	fieldStores map[*types.Var][]*ssa.Store
 }
 
 func newEngine(p *Program) *Engine {
@@ -93,6 +95,16 @@ func (c *Ctx) calleeCtx(site ssa.Instruction, cc *ssa.CallCommon) *Ctx {
 	}
 	k := c.child(cal, site)
 	if len(k.Bind) == 0 {
+		if mc, mctx := c.closureOf(cc.Value); mc != nil && boundMethod(mc.Fn.(*ssa.Function)) == cal && len(mc.Bindings) == 1 && len(cal.Params) >= 1 {
+			// a method value: the receiver is what the closure captured, the call's arguments follow
+			k.Bind[cal.Params[0]] = Bound{mc.Bindings[0], mctx}
+			for i, p := range cal.Params[1:] {
+				if i < len(cc.Args) {
+					k.Bind[p] = Bound{cc.Args[i], c}
+				}
+			}
+			return k
+		}
 		for i, p := range cal.Params {
 			if i < len(cc.Args) {
 				k.Bind[p] = Bound{cc.Args[i], c}
@@ -249,12 +261,61 @@ func (c *Ctx) resolve(v ssa.Value) (ssa.Value, *Ctx) {
 						continue
 					}
 				}
+				// load of a field of a local struct (a request object built once and handed to a helper or a method
+				// value): when that field has exactly one store site in the whole package, and that store initialises
+				// this very object, the load yields the value stored there
+				if fa, ok := x.X.(*ssa.FieldAddr); ok {
+					base, bctx := c.resolve(fa.X)
+					if al, ok := base.(*ssa.Alloc); ok {
+						if st := c.E.singleFieldStore(fa); st != nil {
+							if sfa, ok := st.Addr.(*ssa.FieldAddr); ok && sfa.X == ssa.Value(al) && st.Parent() == al.Parent() {
+								v, c = st.Val, bctx
+								continue
+							}
+						}
+					}
+				}
 			}
 			return v, c
 		}
 		return v, c
 	}
 	return v, c
+}
+
+// singleFieldStore: the one store instruction in the module that writes the struct field addressed by fa, if there is
+// exactly one (then every object's field holds either its zero value or what that site stored).
+func (e *Engine) singleFieldStore(fa *ssa.FieldAddr) *ssa.Store {
+	f := fieldOf(fa)
+	if f == nil {
+		return nil
+	}
+	if e.fieldStores == nil {
+		e.fieldStores = map[*types.Var][]*ssa.Store{}
+		for _, fn := range e.P.srcFuncs(e.P.Main) {
+			for _, b := range fn.Blocks {
+				for _, in := range b.Instrs {
+					if st, ok := in.(*ssa.Store); ok {
+						if sfa, ok := st.Addr.(*ssa.FieldAddr); ok {
+							if sf := fieldOf(sfa); sf != nil {
+								e.fieldStores[sf] = append(e.fieldStores[sf], st)
+							}
+						}
+						// a whole-struct assignment writes every field of that struct
+						if stt, ok := st.Val.Type().Underlying().(*types.Struct); ok {
+							for i := 0; i < stt.NumFields(); i++ {
+								e.fieldStores[stt.Field(i)] = append(e.fieldStores[stt.Field(i)], st)
+							}
+						}
+					}
+				}
+			}
+		}
+	}
+	if l := e.fieldStores[f]; len(l) == 1 {
+		return l[0]
+	}
+	return nil
 }
 
 // cellStores returns all stores to alloc cell al (in its function and in closures capturing it).
@@ -353,10 +414,14 @@ func (c *Ctx) reachingStore(al *ssa.Alloc, ld *ssa.UnOp, ldCtx *Ctx) (ssa.Value,
 	// stores inside closures: only handled when there is exactly one store overall
 	if len(stores) == 1 {
 		st := stores[0]
-		if st.Parent() == al.Parent() {
+		if st.Parent() != al.Parent() {
+			return nil, nil
+		}
+		// a single assignment: its value - unless this load can run before it (a named result read by an early bare
+		// return): then the general rules below decide
+		if ld.Parent() != al.Parent() || instrDominates(st, ld) {
 			return st.Val, c
 		}
-		return nil, nil
 	}
 	for _, st := range stores {
 		if st.Parent() != al.Parent() {
@@ -391,6 +456,8 @@ func (c *Ctx) reachingStore(al *ssa.Alloc, ld *ssa.UnOp, ldCtx *Ctx) (ssa.Value,
 	// to `at` through a loop is a later assignment and is ignored.
 	var best *ssa.Store
 	var loops []*Loop
+	undecided := false
+	_ = undecided
 	for _, st := range stores {
 		if !instrDominates(st, at) {
 			if instrDominates(at, st) {
@@ -407,16 +474,144 @@ func (c *Ctx) reachingStore(al *ssa.Alloc, ld *ssa.UnOp, ldCtx *Ctx) (ssa.Value,
 					continue
 				}
 			}
-			return nil, nil
+			best = nil
+			undecided = true
+			break
 		}
 		if best == nil || instrDominates(best, st) {
 			best = st
 		}
 	}
 	if best == nil {
+		// path-sensitive reaching definitions: decided when exactly one definition reaches
+		if ld.Parent() == al.Parent() && !c.condBusy {
+			if defs, ok := c.cellDefs(al, ld); ok && len(defs) == 1 {
+				if defs[0].Store == nil {
+					return zeroConst(deref(al.Type())), c
+				}
+				return defs[0].Store.Val, c
+			}
+		}
 		return nil, nil
 	}
 	return best.Val, c
+}
+
+// zeroConst: the zero value of t as a constant.
+func zeroConst(t types.Type) *ssa.Const { return ssa.NewConst(nil, t) }
+
+// cellDef is one definition of a local variable cell that can reach a load: a store, or the zero value the cell starts
+// with, together with the function-local condition under which it is (still) the reaching definition.
+type cellDef struct {
+	Store *ssa.Store // nil: the initial zero value
+	Cond  DNF
+}
+
+// cellDefs: the definitions of the non-escaping cell al that reach instruction at (in al's function), path-sensitively:
+// a definition is propagated forwards along edges with their conditions and is killed by the next store to the cell.
+// Not decided (ok=false) when a store shares a loop with `at`, when a store sits in a closure, or when the function's
+// conditions are unavailable.
+func (c *Ctx) cellDefs(al *ssa.Alloc, at ssa.Instruction) (defs []cellDef, ok bool) {
+	fn := al.Parent()
+	if os.Getenv("VERIF_DEBUG") == "2" {
+		fmt.Fprintf(os.Stderr, "cellDefs %s at %v: parent=%v cfn=%v esc=%v fs=%v\n", al.Name(), at, at.Parent() == fn, c.Fn == fn, cellEscapes(al), fieldStored(al))
+	}
+	if at.Parent() != fn || c.Fn != fn || cellEscapes(al) || fieldStored(al) {
+		return nil, false
+	}
+	stores := cellStores(al)
+	for _, st := range stores {
+		if st.Parent() != fn {
+			return nil, false
+		}
+	}
+	loops := naturalLoops(fn)
+	for _, st := range stores {
+		for _, l := range loops {
+			if l.Blocks[at.Block()] && l.Blocks[st.Block()] {
+				return nil, false
+			}
+		}
+	}
+	conds, err := c.conds()
+	if err != nil {
+		return nil, false
+	}
+	defer func() {
+		if r := recover(); r != nil {
+			if _, isOv := r.(dnfOverflow); isOv {
+				defs, ok = nil, false
+				return
+			}
+			panic(r)
+		}
+	}()
+	storeIdx := map[*ssa.BasicBlock][]int{}
+	for _, st := range stores {
+		storeIdx[st.Block()] = append(storeIdx[st.Block()], instrIndex(st))
+	}
+	atIdx := instrIndex(at)
+	storeBetween := func(b *ssa.BasicBlock, lo, hi int) bool { // a store with lo < index < hi
+		for _, i := range storeIdx[b] {
+			if i > lo && i < hi {
+				return true
+			}
+		}
+		return false
+	}
+	type def struct {
+		st  *ssa.Store
+		b   *ssa.BasicBlock
+		idx int
+	}
+	all := []def{{nil, al.Block(), instrIndex(al)}}
+	if al.Block() == nil { // parameters spilled etc.: no zero definition
+		all = nil
+	}
+	for _, st := range stores {
+		all = append(all, def{st, st.Block(), instrIndex(st)})
+	}
+	order := rpo(fn)
+	for _, d := range all {
+		if d.b == at.Block() && d.idx < atIdx && !storeBetween(d.b, d.idx, atIdx) {
+			// same block, nothing in between: this is the definition, whatever else exists
+			return []cellDef{{d.st, conds[d.b]}}, true
+		}
+		if storeBetween(d.b, d.idx, 1<<30) {
+			continue // overwritten before the block ends
+		}
+		alive := map[*ssa.BasicBlock]DNF{d.b: conds[d.b]}
+		for _, b := range order {
+			if b == d.b {
+				continue
+			}
+			in := dnfFalse()
+			for _, p := range b.Preds {
+				if isBackEdge(p, b) {
+					continue
+				}
+				pa, have := alive[p]
+				if !have {
+					continue
+				}
+				for si, sb := range p.Succs {
+					if sb == b {
+						in = in.or(c.edgeCond(conds, p, si, pa))
+					}
+				}
+			}
+			if in.isFalse() {
+				continue
+			}
+			if b == at.Block() && !storeBetween(b, -1, atIdx) {
+				defs = append(defs, cellDef{d.st, in})
+			}
+			if len(storeIdx[b]) == 0 {
+				alive[b] = in
+			}
+		}
+	}
+	return defs, len(defs) > 0
 }
 
 func instrIndex(in ssa.Instruction) int {
@@ -701,9 +896,25 @@ func (c *Ctx) calleeOf(cc *ssa.CallCommon) *ssa.Function {
 	case *ssa.Function:
 		return f
 	case *ssa.MakeClosure:
-		return f.Fn.(*ssa.Function)
+		fn := f.Fn.(*ssa.Function)
+		if m := boundMethod(fn); m != nil {
+			return m
+		}
+		return fn
 	}
 	return nil
+}
+
+// boundMethod: for the synthetic wrapper behind a method value (`r.apply`), the method itself.
+func boundMethod(fn *ssa.Function) *ssa.Function {
+	if fn == nil || !strings.HasPrefix(fn.Synthetic, "bound method wrapper") {
+		return nil
+	}
+	obj, ok := fn.Object().(*types.Func)
+	if !ok || fn.Prog == nil {
+		return nil
+	}
+	return fn.Prog.FuncValue(obj)
 }
 
 // closureOf returns the MakeClosure (and its context) the call's function value resolves to, if any.
@@ -1289,7 +1500,18 @@ func (e *Engine) simpleCallee(fn *ssa.Function) bool {
 	if v, ok := e.simple[fn]; ok {
 		return v
 	}
-	ok := fn.Blocks != nil && len(naturalLoops(fn)) == 0
+	ok := fn.Blocks != nil
+	if ok && len(naturalLoops(fn)) > 0 {
+		// a helper with a loop (retry on EINTR, a scan) is still a function of its return conditions as long as no
+		// role function (send, isClosed, close) is reached from it: those must stay visible by name to the rules
+		e.simple[fn] = false // recursion guard
+		for _, v := range e.Walk(fn, WalkOpts{NoCond: true}).Visits {
+			if cal := visitCallee(v); cal != nil && e.NoExpand[cal] {
+				ok = false
+				break
+			}
+		}
+	}
 	for _, b := range fn.Blocks {
 		for _, in := range b.Instrs {
 			switch x := in.(type) {
@@ -1349,6 +1571,21 @@ func (c *Ctx) callResultDNF(v ssa.Value, neg bool) (d DNF, ok bool) {
 		}
 		subject = v
 	}
+	return c.resultDNF(subject, nilTest, neg)
+}
+
+// resultDNF: "subject is nil" (nilTest) or "subject is true", negated if neg, through the return conditions of the
+// simple helper whose result subject is; ok=false when subject is not such a result.
+func (c *Ctx) resultDNF(subject ssa.Value, nilTest, neg bool) (d DNF, ok bool) {
+	defer func() {
+		if r := recover(); r != nil {
+			if _, isOv := r.(dnfOverflow); isOv {
+				d, ok = nil, false
+				return
+			}
+			panic(r)
+		}
+	}()
 	rv, rc := c.resolve(subject)
 	var call *ssa.Call
 	switch x := rv.(type) {
@@ -1365,6 +1602,9 @@ func (c *Ctx) callResultDNF(v ssa.Value, neg bool) (d DNF, ok bool) {
 		return nil, false
 	}
 	edges := valueEdges(rc, rv, dnfTrue())
+	if os.Getenv("VERIF_DEBUG") == "18" {
+		fmt.Fprintf(os.Stderr, "resultDNF %s: %d edges\n", shortFn(cal), len(edges))
+	}
 	if len(edges) == 0 || len(edges) > 16 {
 		return nil, false
 	}
